@@ -19,17 +19,22 @@ class SimpleDescriptor(t.Struct):
     @classmethod
     def deserialize(cls, data):
         """Deserialize data."""
-        desc, data = super().deserialize(data)
-        data = t.List[t.uint16_t](
-            desc.input_clusters[
-                desc.input_clusters_count + desc.output_clusters_count:
-            ]
-        ).serialize()
-        desc.output_clusters = desc.input_clusters[
-            desc.input_clusters_count:
-                desc.input_clusters_count + desc.output_clusters_count
-        ]
-        desc.input_clusters = desc.input_clusters[0: desc.input_clusters_count]
+        # The cluster lists are not greedy: their lengths are given by the
+        # two count fields. Parse the fixed part, then exactly that many
+        # cluster ids, and hand back whatever follows.
+        fixed = {}
+        for field in cls.fields[:6]:
+            fixed[field.name], data = field.type.deserialize(data)
+        clusters = t.List[t.uint16_t]()
+        count = fixed["input_clusters_count"] + fixed["output_clusters_count"]
+        for _ in range(count):
+            cluster, data = t.uint16_t.deserialize(data)
+            clusters.append(cluster)
+        desc = cls(
+            **fixed,
+            input_clusters=clusters[: fixed["input_clusters_count"]],
+            output_clusters=clusters[fixed["input_clusters_count"]:],
+        )
         return (desc, data)
 
 
